@@ -29,7 +29,11 @@ pub async fn on_did_change_watched_files(
                     continue;
                 }
 
-                if file_event.typ == FileChangeType::DELETED {
+                // Events are handled by spawned tasks and can be applied out of order (a DELETED may
+                // run after the CREATED that followed it): trust the disk, not the event type.
+                let still_on_disk =
+                    uri_to_file_path(&file_event.uri).is_some_and(|path| path.exists());
+                if file_event.typ == FileChangeType::DELETED && !still_on_disk {
                     analysis.remove_file_by_uri(&file_event.uri);
                     if !lsp_features.supports_pull_diagnostic() {
                         context
@@ -43,12 +47,12 @@ pub async fn on_did_change_watched_files(
                     continue;
                 }
 
-                collect_lua_files(
-                    &mut watched_lua_files,
-                    file_event.uri,
-                    file_event.typ,
-                    encoding,
-                );
+                let typ = if still_on_disk {
+                    FileChangeType::CHANGED
+                } else {
+                    FileChangeType::DELETED
+                };
+                collect_lua_files(&mut watched_lua_files, file_event.uri, typ, encoding);
             }
             Some(WatchedFileType::Emmyrc) => {
                 if file_event.typ == FileChangeType::DELETED {
